@@ -492,9 +492,15 @@ func (s *Sys) runCall(c *Call) {
 				enc = gnmi.Encoding_JSON
 			}
 			req := &gnmi.GetRequest{Encoding: enc}
-			if len(op.Query) == 0 {
+			switch {
+			case len(op.Query) == 0:
 				req.Prefix = &gnmi.Path{Target: op.Target}
-			} else {
+			case op.Split > 0 && op.Split <= len(op.Query):
+				req.Prefix = op.Query[:op.Split].ToGNMI(op.Target)
+				if rest := op.Query[op.Split:]; len(rest) > 0 || op.EmptyPath {
+					req.Path = []*gnmi.Path{rest.ToGNMI("")}
+				}
+			default:
 				req.Path = []*gnmi.Path{op.Query.ToGNMI(op.Target)}
 			}
 			c.GetResp, c.Err = inc.server.Get(ctx, req)
